@@ -190,7 +190,7 @@ func (d *driver) loopResponse(items []common.Hash, s Step) [][]byte {
 	return resp
 }
 
-const loopTimeout = 180 * time.Second // safety net only; a healthy step takes microseconds
+const loopTimeout = 45 * time.Second // safety net only; a healthy step takes microseconds (a wedge under a breaking change is re-run by shrinking and by the confirmation replays: keep it short)
 
 // runLoop drives one real trieSync.run() to its end and returns what Wait() reports.
 func (d *driver) runLoop(f Fault, stepBase int) (res error, fdb *faultDB, cancelled bool, v *violation) {
